@@ -84,6 +84,7 @@ class Program:
         self.decls = []     # text of let / func declarations, in order
         self.lets = {}      # let-table name -> Frame (as seen through an instance named like the let)
         self.funcs = {}     # user function name -> dict(kind=..., params=n, named=[...])
+        self.consts = []    # top-level scalar declarations (`let k = (1 + 2)`)
         self.main = None
         self.features = set()
 
@@ -174,6 +175,9 @@ class Gen:
                 args = " ".join("(%s)" % self.expr(fr, 0, prog) for _ in range(prog.funcs[f]["params"]))
                 prog.features.add("user-func-call")
                 return "(%s %s)" % (f, args)
+        if r < 0.93 and prog is not None and prog.consts:
+            prog.features.add("let-value-use")
+            return "%s + %s" % (a, self.pick(prog.consts))
         if r < 0.95:
             return "(%s | in 1..5)" % a
         return "-%s" % a
@@ -545,6 +549,11 @@ class Gen:
             n = self.newname("dbl")
             prog.decls.append("let %s = n rel -> (rel | append (rel | take n))" % n)
             prog.funcs[n] = {"kind": "pipe", "params": 1, "named": []}
+        if self.chance(0.10):
+            # a top-level scalar value: every mention is inlined with the declaration's one PL node id (F8's family)
+            n = self.newname("k")
+            prog.decls.append("let %s = %s" % (n, self.pick(["(1 + 2)", "3", "(2 * 5 - 1)"])))
+            prog.consts.append(n)
         # let tables
         for _ in range(self.pick([0, 0, 1, 1, 2])):
             n = self.newname("tab")
@@ -618,6 +627,11 @@ FIXED = [
     "from t | join (from u | select !{d}) (==id) | filter u.d > 1",
     "from t | join side:left (from v | select !{x, y}) (==id) | derive {z = v.x + 1} | select {z}",
     "from t | join (from u | select !{d}) (==id) | sort u.d",
+    # F8's family: a top-level scalar value mentioned twice
+    "let k = (1 + 2)\nfrom t | derive {a1 = k} | append (from u | derive {b1 = k})",
+    "let k = (1 + 2)\nlet x = (from t | derive {a1 = k})\nfrom x | join (from u | derive {b1 = k}) (==id)",
+    "let k = 3\nfrom t | derive {a1 = k, a2 = k}",
+    "let k = (1 + 2)\nfrom t | filter a > k | append (from u | filter d > k)",
     # F6's family: a relation parameter mentioned twice
     "let dup = rel -> (rel | append rel)\nfrom t | select {a, b} | dup",
     "let dbl = n rel -> (rel | append (rel | take n))\nfrom t | derive {x = a + 1} | filter x > 1 | dbl 2",
